@@ -421,7 +421,11 @@ let polyp_case_line (line : string) =
            let e = List.for_all2 (fun x y -> Z.equal (zz_of_cz x) (zz_of_cz y)) a b in
            let s = Printf.sprintf " eq=%d,ne=%d" (if e then 1 else 0) (if e then 0 else 1) in
            Buffer.add_string mb s; Buffer.add_string sb s
-       | [ ("setbad" | "nubad"); h ] -> apply (M.Write (nat h, fun old -> old))       (* detach happens, then the call throws *)
+       | [ ("setbad" | "nubad" | "ilbad"); h ] -> apply (M.Write (nat h, fun old -> old))       (* detach happens, then the call throws *)
+       | [ "fma"; h; g1; g2 ] -> let b = value (i g1) and c = value (i g2) in
+           apply (M.Write (nat h, fun old -> List.map2 (fun x bc -> M.addmod wz p x bc) old (List.map2 (fun x y -> M.mulmod_gen wz p x y) b c)))
+       | [ "cload"; h; g ] -> let v = value (i g) in apply (M.Write (nat h, fun _ -> v))
+       | [ "csave"; h ] -> let s = Printf.sprintf " bytes=%d" (n * w / 8) in apply (M.Write (nat h, fun old -> old)); Buffer.add_string mb s; Buffer.add_string sb s
        | [ "deserbad"; h ] ->
            apply (M.Write (nat h, fun old -> List.mapi (fun j x -> if j = 0 then czi 0x44332211 else if j = 1 then cz_of_zz (Z.logor (Z.logand (zz_of_cz x) (Z.of_int 0xFFFF0000)) (Z.of_int 0x6655)) else x) old))
        | [ "destroy"; h ] -> apply (M.Destroy (nat h))
